@@ -10,6 +10,9 @@
 //!  (b) every character string of length <= 4 over a 12-character alphabet (quick) / <= 5 over 16 characters (thorough);
 //!  (c) "error placement": error-producing snippets behind a preamble of 0..=12 lines (quick: 7 of them), every line-ending style,
 //!      ASCII / non-ASCII preamble lines, error at start / middle of a line, trailing lines, final newline or not;
+//!      plus preambles of 6/7/8/12 lines whose first line (or every line) is a comment of 1/4/12/40 multi-byte
+//!      characters (2-, 3-, 4-byte), so that the region above the renderer's 5-line window holds more extra bytes than
+//!      the error's offset inside the window;
 //!  (d) every single-point character mutation of the 3 smallest example manifests, and an error token injected at
 //!      the start of every line of every example manifest under every line-ending style;
 //!  (e) deep nesting / very long inputs, run in a child process (re-exec of this binary) on a 2 MiB-stack thread, so
@@ -390,6 +393,57 @@ fn space_c_cases(thorough: bool) -> Vec<PlacementCase> {
                                 }
                                 out.push(PlacementCase {
                                     label: format!("{name}|preamble={n}x{pi}|eol={}|placement={placement}|trailing={trailing}|final_eol={final_eol}", EOL_NAMES[style]),
+                                    text: t,
+                                });
+                            }
+                        }
+                    }
+                }
+            }
+        }
+    }
+    // (c2) heavy multi-byte comments far above the error: the lines *above* the 5-line context window hold more
+    // extra UTF-8 bytes than the error's char offset inside the window (byte/char confusion in the skipped region)
+    let charsets: Vec<(&str, Vec<char>)> = if thorough {
+        vec![("2-byte", vec!['é']), ("3-byte", vec!['基']), ("4-byte", vec!['😀']), ("mixed", vec!['é', '基', '😀'])]
+    } else {
+        vec![("3-byte", vec!['基']), ("mixed", vec!['é', '基', '😀'])]
+    };
+    for (name, snip) in &snippets {
+        for style in 0..4 {
+            for n in [6usize, 7, 8, 12] {
+                for k in [1usize, 4, 12, 40] {
+                    for (csname, cs) in &charsets {
+                        for every_line in [false, true] {
+                            for placement in 0..3 {
+                                let comment: String = format!("# {}", (0..k).map(|i| cs[i % cs.len()]).collect::<String>());
+                                let mut t = String::new();
+                                let mut line = 0;
+                                for i in 0..n {
+                                    if i == 0 || every_line {
+                                        t.push_str(&comment);
+                                    }
+                                    t.push_str(eol(style, line));
+                                    line += 1;
+                                }
+                                // placement 0: error at line start; 1: in the middle of a line; 2: error snippet is the end of its line and of the file
+                                match placement {
+                                    1 => t.push_str("DROP_ALL_PROOFS; "),
+                                    _ => {}
+                                }
+                                for (j, part) in snip.split('\n').enumerate() {
+                                    if j > 0 {
+                                        t.push_str(eol(style, line));
+                                        line += 1;
+                                    }
+                                    t.push_str(part);
+                                }
+                                if placement != 2 {
+                                    t.push_str(eol(style, line));
+                                    t.push_str("DROP_ALL_PROOFS;");
+                                }
+                                out.push(PlacementCase {
+                                    label: format!("{name}|heavy-comment:{csname}x{k}:{}|preamble={n}|eol={}|placement={placement}", if every_line { "every-line" } else { "first-line" }, EOL_NAMES[style]),
                                     text: t,
                                 });
                             }
